@@ -24,6 +24,8 @@ from common import (BROKEN, HELD, INCONCLUSIVE, VIOLATED, Obligation, Report, Sc
 from mirflow import DISC, Ref, Unsupported, const, fun
 from native import NativeRun
 
+import c23_binding
+
 
 def models(W):
     used = W["used"]
@@ -153,6 +155,7 @@ def run(tier, seed, only=None):
             return rep.finish()
         log("  MIR dump erg_compiler: %.0fs, %d MB" % (dt, len(text) >> 20))
         fns = M.parse_mir(text, want=["ownercheck::"])
+        mir_text = text
         del text
         mains = [f for f in fns.values() if f.short == "check_if_dropped"]
         if len(mains) != 1:
@@ -270,7 +273,11 @@ def run(tier, seed, only=None):
         c.check_if_dropped(&Str::ever("v"), &Location::Unknown).is_err()
     }
 """
-        nr = NativeRun(s, "erg_compiler", "crates/erg_compiler/ownercheck.rs", helpers=helpers)
+        bcases, bfinish = c23_binding.stage(rep, s, mir_text, tier, only)
+        del mir_text
+        nr = NativeRun(s, "erg_compiler", "crates/erg_compiler/ownercheck.rs", helpers=helpers + c23_binding.HELPERS)
+        for cid_, expr_ in bcases:
+            nr.add(cid_, expr_)
         vecs = []
         for d in sorted(runs):
             for combo in itertools.product([(False, False), (True, False), (False, True)], repeat=d):
@@ -304,9 +311,10 @@ def run(tier, seed, only=None):
             if g != str(is_err).lower():
                 ob["verdict"] = BROKEN
                 ob["reason"] = "counterexample did not reproduce natively (%s): %s" % (g, ob["reason"])
+        bviol = bfinish(res)
         confirmed = [t for t in to_replay if t[0]["verdict"] == VIOLATED]
-        if confirmed and (tier == "thorough" or any(not rep.known.lookup(rep.prop, t[0]["key"]) for t in confirmed)):
-            e2e(s, rep, confirmed)
+        if (confirmed or bviol) and (tier == "thorough" or any(not rep.known.lookup(rep.prop, t[0]["key"]) for t in confirmed + bviol)):
+            e2e(s, rep, confirmed, bviol)
         rep.assumptions += sorted(used) + [
             "per scope a name is not both alive and moved (drop removes it from alive_vars before inserting it into dropped_vars)",
             "reference: the innermost enclosing scope that knows the name (alive or moved) is the one the use refers to",
@@ -317,7 +325,7 @@ def run(tier, seed, only=None):
         s.cleanup()
 
 
-def e2e(s, rep, confirmed):
+def e2e(s, rep, confirmed, bviol=()):
     t0 = time.time()
     tdir = os.path.join(s.root, "native")
     rc, out, dt = sh(["cargo", "build", "--offline", "--bin", "erg"], cwd=s.src, env=s.env(CARGO_TARGET_DIR=tdir), timeout=2400)
@@ -337,5 +345,12 @@ def e2e(s, rep, confirmed):
         rc1, out1, _ = sh([exe, "check", f], env=s.env(), timeout=120)
         ob["end_to_end"] = {"program": prog, "erg check exit": rc1, "rejected": rc1 != 0,
                             "diagnostic tail": re.sub(r"\x1b\[[0-9;]*m", "", out1).strip()[-200:]}
+        log("  e2e %s: erg check rc=%s" % (ob["key"], rc1))
+    for n, (ob, prog) in enumerate(list(bviol)[:4]):
+        f = os.path.join(s.root, "e2e_b%d.er" % n)
+        open(f, "w").write(prog)
+        rc1, out1, _ = sh([exe, "check", f], env=s.env(), timeout=120)
+        rc2, out2, _ = sh([exe, "run", f], env=s.env(), timeout=120)
+        ob["end_to_end"] = {"program": prog, "erg check exit": rc1, "accepted": rc1 == 0, "erg run stdout tail": re.sub(r"\x1b\[[0-9;]*m", "", out2).strip()[-80:]}
         log("  e2e %s: erg check rc=%s" % (ob["key"], rc1))
     log("  e2e stage: %.0fs" % (time.time() - t0))
